@@ -121,6 +121,12 @@ def gen_rel64(r, nf, shared):
              f"    .globl r64_f\n    {vis} r64_f\n    .type r64_f,@function\nr64_f:\n.Lr64_f:\n"
              "    lea .Lrel64_tab(%rip), %rax\n    lea _GLOBAL_OFFSET_TABLE_(%rip), %rdx\n    add (%rax), %rdx\n    ret\n    .size r64_f, . - r64_f\n"
              "    .section .init_array,\"aw\"\n    .p2align 3\n    .quad .Lr64_f\n")
+    # referents WITHOUT size or type (plain assembly labels, st_size = 0): a call and a rip-relative reference to them
+    hv = ".hidden" if shared else "# default visibility:"
+    a.append(f"    .text\n    .globl nz_user\n    {hv} nz_user\n    .type nz_user,@function\nnz_user:\n    call nz_fn\n    lea nz_dat(%rip), %rax\n"
+             f"    mov (%rax), %rax\n    ret\n    .size nz_user, . - nz_user\n    .globl nz_fn\n    {hv} nz_fn\nnz_fn:\n    mov $7, %eax\n    ret\n"
+             f"    .data\n    .p2align 3\n    .globl nz_dat\n    {hv} nz_dat\nnz_dat:\n    .quad 5\n"
+             "    .section .init_array,\"aw\"\n    .quad nz_user\n")
     return "".join(a), entries
 
 
@@ -230,6 +236,14 @@ def run(ctx):
             if any(p[0] is s and p[1] == na for p in plan):
                 continue
             plan.append((s, na, nn))
+        # sites whose referent is a symbol without size (an assembly label) are always part of the plan
+        zero = {a for n, (a, sz, t, b) in syms.items() if sz == 0 and n in ("nz_fn", "nz_dat")}
+        for s in [s for s in sites if s.target in zero and s.kind in ("call", "rip")][:2]:
+            pool = [(a, n) for a, n in (funcs if s.kind == "call" else objs) if a != s.target]
+            if pool:
+                na, nn = r.choice(pool)
+                plan.insert(0, (s, na, nn))
+                ctx.count("sites-in-view", "referent-without-size")
         names = binview.addr_to_names(e)
         for ci, (s, na, nn) in enumerate(plan):
             nb = binview.retarget(e, data, s, na)
